@@ -62,7 +62,11 @@ type interpreter struct {
 	funcsSeen map[*ssa.Function]int64 // function -> instructions executed (evidence)
 	depth     int
 	stubSeen  map[string]bool
+	setupCache map[string]value
+	noSummary  map[*ssa.Function]bool
 	pure      map[*ssa.Function]bool
+	fnInfos   map[*ssa.Function]*fnInfo
+	regionsMerged int64
 	noMerge   bool
 	lockDepth int
 	clock     int64
@@ -114,6 +118,7 @@ type frame struct {
 	callPos          token.Pos
 	curInstr         int
 	phiCount         int
+	phisDone         bool
 }
 
 func (fr *frame) curInstrAbs() int { return fr.phiCount + fr.curInstr }
@@ -322,6 +327,9 @@ func (fr *frame) visitInstr(instr ssa.Instruction) continuation {
 				succ = 0
 			}
 		case *sym:
+			if !fr.i.noMerge && fr.tryRegion(c.t) {
+				return kJump
+			}
 			if fr.i.ex.branch(c.t) {
 				succ = 0
 			}
@@ -589,7 +597,7 @@ func (i *interpreter) call(caller *frame, callpos token.Pos, fn value, args []va
 		if fn == nil {
 			panic(rtPanic("invalid memory address or nil pointer dereference (call of nil func)"))
 		}
-		if i.ex.local == nil && !i.noMerge && hasSym(args) && i.isPure(fn) {
+		if !i.noMerge && !i.noSummary[fn] && hasSym(args) && i.isPure(fn) {
 			if v, ok := i.summarize(caller, callpos, fn, args); ok {
 				return v
 			}
@@ -807,6 +815,10 @@ func (fr *frame) executePhis() []ssa.Instruction {
 	}
 	fr.phiCount = firstNonPhi
 	nonPhis := fr.block.Instrs[firstNonPhi:]
+	if fr.phisDone {
+		fr.phisDone = false
+		return nonPhis
+	}
 	if firstNonPhi > 0 {
 		phis := fr.block.Instrs[:firstNonPhi]
 		predIndex := slices.Index(fr.block.Preds, fr.prevBlock)
